@@ -34,6 +34,7 @@ type evalSite struct {
 	Loc       string   // same | child | ?
 	SchemaSrc []string // e.g. Schema.AllOf, resolvedInfo.resolvedRef
 	AnnsKind  string   // frame | nil | caller | ?
+	Levels    []ssa.Instruction // the call itself, then the call sites (of helpers or of the closure) that lead to it, innermost first
 }
 
 func (s *evalSite) key() string {
@@ -117,6 +118,10 @@ func (c *Ctx) EvalModel(rule string) *evalModel {
 				anns = upValue(args[pi], fi.Path)
 			}
 		}
+		levels := []ssa.Instruction{call}
+		for k := len(fi.Path) - 1; k >= 0; k-- {
+			levels = append(levels, fi.Path[k])
+		}
 		fn := fi.Top().Parent()
 		var via ssa.CallInstruction
 		if len(fi.Path) > 0 {
@@ -145,12 +150,12 @@ func (c *Ctx) EvalModel(rule string) *evalModel {
 						}
 						return v
 					}
-					m.Sites = append(m.Sites, &evalSite{Call: call, Fn: cs.Parent(), Via: cs, Inst: sub(inst), Schema: sub(sch), Anns: sub(anns)})
+					m.Sites = append(m.Sites, &evalSite{Call: call, Fn: cs.Parent(), Via: cs, Inst: sub(inst), Schema: sub(sch), Anns: sub(anns), Levels: append(append([]ssa.Instruction{}, levels...), cs)})
 				}
 			}
 		}
 		if !expanded {
-			m.Sites = append(m.Sites, &evalSite{Call: call, Fn: fn, Via: via, Inst: inst, Schema: sch, Anns: anns})
+			m.Sites = append(m.Sites, &evalSite{Call: call, Fn: fn, Via: via, Inst: inst, Schema: sch, Anns: anns, Levels: levels})
 		}
 	}
 	for _, s := range m.Sites {
@@ -367,8 +372,29 @@ func (m *evalModel) schemaSources(c *Ctx, v ssa.Value) []string {
 				}
 			case *ssa.Lookup:
 				walk(t.X)
+			case *ssa.Call:
+				// the result of a transparent helper: what the helper returns
+				if h := t.Call.StaticCallee(); h != nil && c.transparent(h) {
+					core.EachInstr(h, func(i ssa.Instruction) {
+						if ret, ok := i.(*ssa.Return); ok && x.Index < len(ret.Results) {
+							walk(ret.Results[x.Index])
+						}
+					})
+				} else {
+					set["?extract"] = true
+				}
 			default:
 				set["?extract"] = true
+			}
+		case *ssa.Call:
+			if h := x.Call.StaticCallee(); h != nil && c.transparent(h) && h.Signature.Results().Len() == 1 {
+				core.EachInstr(h, func(i ssa.Instruction) {
+					if ret, ok := i.(*ssa.Return); ok && len(ret.Results) == 1 {
+						walk(ret.Results[0])
+					}
+				})
+			} else {
+				set[fmt.Sprintf("?%T", v)] = true
 			}
 		case *ssa.Phi:
 			for _, e := range x.Edges {
@@ -377,6 +403,10 @@ func (m *evalModel) schemaSources(c *Ctx, v ssa.Value) []string {
 		case *ssa.Parameter:
 			if x == m.schemaParam {
 				set["param:schema"] = true
+			} else if srcs := c.paramSources(x); len(srcs) > 0 && x.Parent() != m.E {
+				for _, a := range srcs {
+					walk(a)
+				}
 			} else {
 				set["param:"+x.Name()] = true
 			}
